@@ -1,5 +1,6 @@
 import MosnVerif.Drive.Util
 import MosnVerif.Model.PoolWin
+import MosnVerif.Model.PoolPlace
 /-!
 Driver of kind `win` (C09 window / C10 pool ledger): histories on the REAL HTTP/1 and ping-pong pools whose every
 observation carries the whole ledger, and whose `W<s>` operation runs a second `NewStream` INSIDE the window between
@@ -8,6 +9,11 @@ observation carries the whole ledger, and whose `W<s>` operation runs a second `
 case : `win <h1|pp> <maxConn> <maxReq> <ops>`      impl: one token per op
 token: `<res>;t<total>;i<idle>;q<Requests.Cur>;k<Connections.Cur>;p<PendingRequests.Cur>;a<host>:<cluster> request_active;`
        `b<host>:<cluster> connection_active;n<o|c per connection>;l<connections with a request in flight>`
+
+pool9: `Y` = NewStream with the connection closed by MOSN between the creation of the stream and the registration of
+the pool's listener (yield hook); model: the REGENERATED NewStream program (`Gen/PoolPlace`) interpreted statement by
+statement with the close right after `place` (`Model/PoolPlace.yieldNew`); on every `N` the same interpreter without the
+close must give what the atomic `newStream` of `Model/PoolWin` gives (otherwise the token carries `!prog` ⇒ `D`).
 
 `A`: the small-step model (`Model/PoolWin`, regenerated OnDestroyStream programs) predicts every token.
 `Spec` (about the IMPLEMENTATION's tokens and the case only — no regenerated code):
@@ -28,12 +34,14 @@ open MosnVerif.Model.PoolWin
 inductive WOp
   | n (fails : Bool) | r (s : Nat) | rc (s : Nat) | l (s : Nat) | x (s : Nat) | w (s : Nat)
   | cr (c : Nat) | g (c : Nat) | eInc | eDec
+  | y
   deriving Repr
 
 def numAfter (s : String) (n : Nat) : Option Nat := (s.drop n).toString.toNat?
 
 def parseOp (t : String) : Option WOp :=
   if t == "N" then some (.n false) else if t == "NF" then some (.n true)
+  else if t == "Y" then some .y
   else if t == "E+" then some .eInc else if t == "E-" then some .eDec
   else if t.startsWith "RC" then (numAfter t 2).map .rc
   else if t.startsWith "R" then (numAfter t 1).map .r
@@ -68,8 +76,14 @@ def endAndDrain (s : State) (c : Nat) (cause : Cause) : State :=
 /-- one operation on the model; `streams` maps the harness' stream numbers to clients -/
 def applyOp (s : State) (streams : List Nat) : WOp → State × List Nat × String
   | .n fails =>
-    let (s1, res) := step s (.newStream (if fails then .refused else .ok))
-    (s1, (match res with | .ok c => streams ++ [c] | _ => streams), res.render)
+    let d : Dial := if fails then .refused else .ok
+    let (s1, res) := step s (.newStream d)
+    let (s1', res') := MosnVerif.Model.PoolPlace.yieldNew s d false
+    let same := res == res' && render "" s1 == render "" s1'
+    (s1, (match res with | .ok c => streams ++ [c] | _ => streams), if same then res.render else res.render ++ "!prog")
+  | .y =>
+    let (s1, res) := MosnVerif.Model.PoolPlace.yieldNew s .ok true
+    (s1, (match res with | .ok c => streams ++ [c] | _ => streams), "y:" ++ res.render)
   | .r i => (endAndDrain s (streams.getD i 0) .complete, streams, "-")
   | .rc i => (endAndDrain s (streams.getD i 0) .completeClose, streams, "-")
   | .l i => (endAndDrain s (streams.getD i 0) .localReset, streams, "-")
@@ -206,6 +220,17 @@ def specAlong (kind : Kind) (maxConn maxReq : Nat) : Track → Obs → List WOp 
         | .g _ => (res == "-", tr)
         | .eInc => (res == "-", { tr with ext := tr.ext + 1 })
         | .eDec => (res == "-", { tr with ext := tr.ext - 1 })
+        | .y =>
+          -- the connection is closed inside NewStream: the request is refused, or the stream handed out has ended by
+          -- the time the operation has settled (`obsSpec`: nothing in flight on a closed connection, counters = truth)
+          let inner := (res.drop 2).toString
+          let full := maxReq != 0 && tr.ext + before.live.length ≥ maxReq
+          (res.startsWith "y:" && (match okConn inner with
+             | some c => !full && !tr.spoiled.contains c && !before.live.contains c
+             | none => (inner == "ovf" && (full || (maxConn != 0 && before.openCount ≥ maxConn))) || (inner == "cf" && !full)),
+           match okConn inner with
+           | some c => { tr with spoiled := c :: tr.spoiled, streams := tr.streams ++ [c] }
+           | none => tr)
         | .w i =>
           let c := connOf i
           let sp := c :: tr.spoiled
